@@ -106,7 +106,10 @@ def call_name(I, n, name, args, kwargs):
         return call_value(I, n, I.env.get(name), args, kwargs)
     if name == 'round':
         v = args[0]
-        if len(n.args) > 1 and 'internal_precision' in unparse(n.args[1]):
+        digits = args[1] if len(args) > 1 else None
+        dtext = digits.d if isinstance(digits, Other) else ''
+        internal = len(n.args) > 1 and ('internal_precision' in unparse(n.args[1]) or dtext == 'config.internal_precision')
+        if internal:
             from .unitai import RNum, SNum
             if isinstance(v, SNum):
                 I.sink(n, 'round-then-scale', False,
@@ -114,6 +117,15 @@ def call_name(I, n, name, args, kwargs):
                        'meant for storage units: amounts below that precision in the coarser unit become 0')
             if type(v) is Num or isinstance(v, SNum):
                 return RNum(v.unit)
+        elif isinstance(v, Num) and 'precision' in dtext:
+            # a number of digits taken from config.precisions is a display precision, chosen for a user unit
+            try:
+                stored = I.bound_unit(v.unit).has_storage_symbol()
+            except Exception:
+                stored = False
+            I.sink(n, 'round-stored-at-user-precision', not stored,
+                   'a value still in its storage unit is rounded with the number of digits of a user unit: what is '
+                   'rounded away depends on the storage configuration')
         return v
     if name in ('abs', 'float'):
         v = args[0]
